@@ -407,6 +407,40 @@ func doShrink(t *testing.T) {
 		}
 		gran = min(gran*2, len(pos))
 	}
+	// 3. configuration shrinking (generic, on the JSON form of the configuration): drop array elements, move
+	// numbers towards 0, clear flags - keeping a candidate only when the same violation class recurs with the
+	// current choice vector (entries beyond its end are defaults, so any configuration is executable)
+	if *fOut != "" {
+		inter := mkReplay(best, cfg)
+		inter.NChoices, inter.Choices, inter.Kinds = len(vec), sparse(vec), ""
+		inter.TreeHash = rf.TreeHash
+		writeJSON(*fOut, inter) // a crash while trying odd configurations must not lose the result so far
+	}
+	rawCfg, _ := json.Marshal(cfg)
+	cfgTries := 0
+	tryCfg := func(raw json.RawMessage) bool {
+		c2, err := h.Decode(raw)
+		if err != nil {
+			return false
+		}
+		cfgTries++
+		rec := execute(t, h, rf.Property, *fTier, rf.Seed, c2, rf.SimCfg, simrt.NewReplay(vec, nil), false)
+		if rec.Verdict != "violation" {
+			return false
+		}
+		for _, vi := range rec.Viol {
+			if vi.Class == rf.Class {
+				best = rec
+				return true
+			}
+		}
+		return false
+	}
+	if shrunk := shrinkJSON(rawCfg, tryCfg, deadline); len(shrunk) > 0 {
+		if c2, err := h.Decode(shrunk); err == nil {
+			cfg = c2
+		}
+	}
 	// trim trailing zeros
 	for len(vec) > 0 && vec[len(vec)-1] == 0 {
 		vec = vec[:len(vec)-1]
@@ -432,7 +466,7 @@ func doShrink(t *testing.T) {
 			nzc++
 		}
 	}
-	fmt.Printf("SHRINK ok tries=%d choices=%d nonzero=%d steps=%d\n", tries, len(final.Choices), nzc, final.Stats.Steps)
+	fmt.Printf("SHRINK ok tries=%d cfg_tries=%d choices=%d nonzero=%d steps=%d\n", tries, cfgTries, len(final.Choices), nzc, final.Stats.Steps)
 	if *fOut != "" {
 		writeJSON(*fOut, out)
 	}
@@ -589,4 +623,163 @@ func doSearch(t *testing.T) {
 		}
 	}
 	flush()
+}
+
+// ---- generic JSON shrinking ------------------------------------------------------------------------------
+
+type jsonPath []any // string keys and int indices
+
+func jsonGet(root any, p jsonPath) any {
+	cur := root
+	for _, k := range p {
+		switch kk := k.(type) {
+		case string:
+			cur = cur.(map[string]any)[kk]
+		case int:
+			cur = cur.([]any)[kk]
+		}
+	}
+	return cur
+}
+
+func jsonSet(root any, p jsonPath, v any) any {
+	if len(p) == 0 {
+		return v
+	}
+	switch kk := p[0].(type) {
+	case string:
+		m := root.(map[string]any)
+		m[kk] = jsonSet(m[kk], p[1:], v)
+		return m
+	case int:
+		a := root.([]any)
+		a[kk] = jsonSet(a[kk], p[1:], v)
+		return a
+	}
+	return root
+}
+
+func jsonWalk(v any, p jsonPath, visit func(jsonPath, any)) {
+	visit(p, v)
+	switch x := v.(type) {
+	case map[string]any:
+		for _, k := range sortedKeys(x) {
+			jsonWalk(x[k], append(append(jsonPath{}, p...), k), visit)
+		}
+	case []any:
+		for i := range x {
+			jsonWalk(x[i], append(append(jsonPath{}, p...), i), visit)
+		}
+	}
+}
+
+func jsonClone(v any) any {
+	b, _ := json.Marshal(v)
+	return jsonParse(b)
+}
+
+func jsonParse(b []byte) any {
+	dec := json.NewDecoder(strings.NewReader(string(b)))
+	dec.UseNumber()
+	var v any
+	if err := dec.Decode(&v); err != nil {
+		return nil
+	}
+	return v
+}
+
+// shrinkJSON greedily simplifies a JSON document while ok() keeps holding.
+func shrinkJSON(raw json.RawMessage, ok func(json.RawMessage) bool, deadline time.Time) json.RawMessage {
+	cur := jsonParse(raw)
+	if cur == nil {
+		return nil
+	}
+	attempt := func(cand any) bool {
+		b, err := json.Marshal(cand)
+		if err != nil || !time.Now().Before(deadline) {
+			return false
+		}
+		if ok(b) {
+			cur = cand
+			return true
+		}
+		return false
+	}
+	for round := 0; round < 4 && time.Now().Before(deadline); round++ {
+		changed := false
+		// arrays: drop halves, then single elements (at least one element stays)
+		var arrays []jsonPath
+		jsonWalk(cur, nil, func(p jsonPath, v any) {
+			if a, isArr := v.([]any); isArr && len(a) > 1 {
+				arrays = append(arrays, p)
+			}
+		})
+		for _, p := range arrays {
+			for {
+				a, isArr := jsonGet(cur, p).([]any)
+				if !isArr || len(a) <= 1 || !time.Now().Before(deadline) {
+					break
+				}
+				half := len(a) / 2
+				c1 := jsonSet(jsonClone(cur), p, jsonClone(a[:len(a)-half]))
+				if attempt(c1) {
+					changed = true
+					continue
+				}
+				c2 := jsonSet(jsonClone(cur), p, jsonClone(a[half:]))
+				if attempt(c2) {
+					changed = true
+					continue
+				}
+				if len(a) <= 6 {
+					removed := false
+					for i := 0; i < len(a) && len(a) > 1; i++ {
+						rest := append(append([]any{}, a[:i]...), a[i+1:]...)
+						if attempt(jsonSet(jsonClone(cur), p, jsonClone(rest))) {
+							changed, removed = true, true
+							break
+						}
+					}
+					if removed {
+						continue
+					}
+				}
+				break
+			}
+		}
+		// numbers towards zero, flags off
+		var leaves []jsonPath
+		jsonWalk(cur, nil, func(p jsonPath, v any) {
+			switch v.(type) {
+			case json.Number, bool:
+				leaves = append(leaves, p)
+			}
+		})
+		for _, p := range leaves {
+			if !time.Now().Before(deadline) {
+				break
+			}
+			switch x := jsonGet(cur, p).(type) {
+			case bool:
+				if x && attempt(jsonSet(jsonClone(cur), p, false)) {
+					changed = true
+				}
+			case json.Number:
+				if f, err := x.Float64(); err == nil && f != 0 {
+					if attempt(jsonSet(jsonClone(cur), p, json.Number("0"))) {
+						changed = true
+					} else if i, err := x.Int64(); err == nil && (i >= 2 || i <= -2) {
+						if attempt(jsonSet(jsonClone(cur), p, json.Number(fmt.Sprint(i/2)))) {
+							changed = true
+						}
+					}
+				}
+			}
+		}
+		if !changed {
+			break
+		}
+	}
+	b, _ := json.Marshal(cur)
+	return b
 }
